@@ -188,6 +188,12 @@ def main(argv=None):
         ctx.inconclusive('monitor crashed: %s: %s | %s' % (
             type(exc).__name__, exc, traceback.format_exc()[-1500:]))
         rc = 3
+    try:
+        from vmon import probe as _probe
+        for msg in _probe.MONITOR_ERRORS[:10]:
+            ctx.inconclusive('monitor error: ' + msg)
+    except Exception:
+        pass
     res = ctx.result(keyfile)
     tmp = a.out + '.tmp'
     with open(tmp, 'w') as fh:
